@@ -41,6 +41,14 @@ CHECKS = {
    text="For every T-class pair of regions whose boundaries cross, TLC exports for each crossing the loop, edge and rational parameter on both boundaries (parametrisation is invariant under the realisations); intersection() of every curve pair must report exactly these tuples (exact for rational polygons), satisfy the range and A(u)=B(v) constraints, swap symmetry, the flag filters and A & B; crossings at vertices after splitting; (None, None) exactly for identical segments.", ref="6/C14"),
  "C15": dict(tech="TLC model checking of SplitClean.tla (tiling, monotonicity, clean restores / idempotent) + replay of TLC-simulated split/clean programs on real curves of degree 1-3",
    text="SplitClean.tla models a curve as original segments with break points; TLC checks that pieces tile each segment without zero-length piece, that ignored parameters are no-ops and that clean restores the segmentation. Simulated programs (1-3 pairs per split, repeated / nearly repeated / near-0,1 parameters) are replayed: each real piece must retrace its part of the original segment, share junction points, keep area and orientation; split;clean must be == the original.", ref="6/C15"),
+ "C16": dict(tech="TLC-checked decision table (Prims.tla) instantiated with concrete parameter values against closed-form geometry",
+   text="TLC enumerates factory x size class x centre class x count class, checks that the table is total and that any invalid class forces ValueError, and exports it; every row is instantiated with several concrete values (int, Fraction, float, zero, negative, string, None, malformed centres) and the outcome, kind, orientation, segment count/degree, vertices, closed-form areas, circle band and convergence are checked.", ref="6/C16", cat="exploration"),
+ "C17": dict(tech="TLC enumeration and theorems on segment chains (Curves.tla) replayed through the real constructors + four-constructor agreement on the specification's loops",
+   text="TLC enumerates every chain of <= 4 segments over 4 points with its closedness verdict (and proves that from_vertices round-trips and that reversing a segment opens a closed chain); each chain is fed to from_segments/from_ctrlpoints (accepted iff closed); every boundary loop of sampled regions is built by all four constructors from two start rotations and compared (==, vertices, box, signed length, area, orientation).", ref="6/C17"),
+ "C18": dict(tech="TLC proof of the Bernstein / derivative / de Casteljau identities on scaled integers (Bezier.tla) + exact replay of the TLC-computed values",
+   text="TLC proves, for degrees 1..6 at 7 rational nodes, that the closed form of bezier_caract_matrix is the Bernstein-to-monomial matrix, that derivative control points differentiate and that de Casteljau pieces re-parametrise the curve, and exports B(t), B'(t) and the pieces as exact rationals for integer control polygons; the harness compares segment(t), eval, derivate(k), split, box, the memoised matrix (cold/warm) exactly, plus point-on-curve and winding oracles.", ref="6/C18"),
+ "C20": dict(tech="PlotPlan of the specification (components, loops, corners) + read-back of matplotlib patches on the Agg backend",
+   text="For every sampled region (incl. Empty, Whole) under realisations of degree 1, 2, mixed, 3 the patches added by ShapePloter.plot are read back: number of filled paths and outlines from the specification's PlotPlan, code sequences per segment degree (LINETO / CURVE3 x2 / CURVE4 x3), vertices = control points, fill colour by boundedness, shape unchanged.", ref="6/C20"),
  "C19": dict(tech="TLC heap model (MakeRegion) + direct constructors in permuted orders against operator-built objects and the specification record",
    text="For every region with >= 2 boundary curves the direct ConnectedShape/DisjointShape constructions in permuted orders (with Empty entries) are compared with the specification record, with the operator-built object (== both ways), with complements; collapse rules (single member copy, empty list).", ref="6/C19"),
 }
@@ -57,12 +65,11 @@ for p in props:
             "evidence_file": "evidence/%s.json" % pid,
             "replay_cmd_template": "bin/check %s --replay {path}" % pid,
             "engine": "vshape",
-            "level_claimed": {"category": "model_checking", "text": c["text"], "design_ref": "DESIGN.md section " + c["ref"]},
+            "level_claimed": {"category": c.get("cat", "model_checking"), "text": c["text"], "design_ref": "DESIGN.md section " + c["ref"]},
             "level_note": "Bounded: universes of <= 4 atoms on <= 12x12 cells, degrees <= 3, programs <= 11 steps; the quick tier samples the deterministic corpus by VERIF_SEED. Trusted base: " + TB,
             "technique": c["tech"],
         })
-na = [{"property_id": p["id"], "reason": "check under construction in this round (planned in DESIGN.md section 6); not claimed until its command exists"}
-      for p in props if p["id"] not in CHECKS]
+na = [{"property_id": p["id"], "reason": "not claimed"} for p in props if p["id"] not in CHECKS]
 
 m = {
  "version": 1,
